@@ -8,6 +8,7 @@ import NodisVerif.Driver.GeoOps
 import NodisVerif.Driver.FragOps
 import NodisVerif.Driver.ProtoOps
 import NodisVerif.Driver.BlockProgOps
+import NodisVerif.Driver.GateProgOps
 import NodisVerif.Driver.LinkedListOps
 import NodisVerif.Driver.SlOps
 import NodisVerif.Driver.RespWriterOps
@@ -25,6 +26,7 @@ structure DState where
   block : Block.BState := []
   bprog : Driver.BPReplay := {}                  -- the replay of the same events against the program model
   gate : Gate.GState := {}
+  gprog : Driver.GPR := {}                       -- replay of the gate trace against the program model (Model/GateProg.lean)
   feeds : List (String × List FeedOp) := []      -- per watched instance: records not yet drained (oldest first)
   patterns : List Bytes := []                    -- patterns of the second (filtered) watcher
   ll : LinkedList.PList := {}                    -- the bare pointer-level list of the `ll` lines (C02)
@@ -78,8 +80,17 @@ def step (d : DState) (line : String) : DState × String :=
       ({ d with block := b, bprog := bp }, out')
     | _, _ => ({ d with block := b }, out)
   | "bpp" :: rest => let (bp, out) := Driver.bpProgOp d.bprog rest; ({ d with bprog := bp }, out)
-  | "gev" :: rest => let (g, out) := Driver.gateOp d.gate rest; ({ d with gate := g }, out)
-  | ["pend"] => ({ d with proto := {}, gate := {} }, Driver.protoEnd d.proto)
+  | "gev" :: rest =>
+    let (g, out) := Driver.gateOp d.gate rest
+    if out != "ok" then ({ d with gate := g }, out) else
+    (match Driver.parseGev rest with
+     | some e =>
+       -- the protocol accepts the step; is it also a step of the program (Model/GateProg.lean)?
+       let (r, ok) := Driver.gprogEv d.gprog d.gate e
+       ({ d with gate := g, gprog := r }, if ok then "ok" else "rejected-prog")
+     | none => ({ d with gate := g }, out))
+  | "gpc" :: rest => let (r, out) := Driver.gprogObs d.gprog d.gate rest; ({ d with gprog := r }, out)
+  | ["pend"] => ({ d with proto := {}, gate := {}, gprog := {} }, Driver.protoEnd d.proto)
   | "open" :: id :: backend :: _ =>
     ({ d with cur := id }.putSv { store := { pebble := backend == "pebble" } }, "ok")
   | ["inst", id] => ({ d with cur := id }, "ok")
